@@ -1,0 +1,101 @@
+# -*- coding: utf-8 -*-
+"""
+pytableaux._verif
+^^^^^^^^^^^^^^^^^
+
+Verification hooks. Nothing in this module is used unless the environment
+variable ``PYTABLEAUX_VERIF`` is set to ``1``.
+
+The hooks make run-to-run behaviour repeatable for external monitors:
+
+- ``Node`` and ``Branch`` objects hash by object id, and lexical items hash
+  a class object (i.e. an address). Both decide the iteration order of the
+  hash-based sets from which equally ranked rule targets are picked.
+- With the hooks on, nodes and branches hash by a creation serial permuted
+  by an integer seed (``PYTABLEAUX_VERIF_ORDER``, or :func:`set_order`), and
+  lexical items hash a constant salt derived from the same variable instead
+  of the class object.
+
+Equality is not changed anywhere.
+"""
+from __future__ import annotations
+
+import os
+
+__all__ = ('ACTIVE', 'install_node_order', 'make_hashitem', 'set_order', 'serial_of')
+
+ACTIVE = os.environ.get('PYTABLEAUX_VERIF') == '1'
+
+_P = (1 << 61) - 1
+_serials: dict[int, int] = {}
+_state = dict(next=0, seed=0, mult=1, installed=False)
+
+def _mult(seed: int) -> int:
+    if seed == 0:
+        return 1
+    return ((seed * 0x9E3779B97F4A7C15) % _P) | 1
+
+def set_order(seed: int, /) -> None:
+    """Set the permutation seed for Node/Branch hashes. Only call this between
+    tableaux: objects already stored in sets keep their old position.
+    Also restarts the serial counter, so that a proof replays the same way
+    regardless of what ran before it in the process."""
+    seed = int(seed)
+    _state['seed'] = seed
+    _state['mult'] = _mult(seed)
+    _state['next'] = 0
+    _serials.clear()
+
+def serial_of(obj, /) -> int|None:
+    "The creation serial of a node or branch, if known."
+    return _serials.get(id(obj))
+
+def _stamp(obj) -> None:
+    n = _state['next'] = _state['next'] + 1
+    _serials[id(obj)] = n
+
+def install_node_order(Node: type, Branch: type, /) -> None:
+    if _state['installed']:
+        return
+    _state['installed'] = True
+    set_order(int(os.environ.get('PYTABLEAUX_VERIF_ORDER', '0') or 0))
+
+    def wrap_init(cls):
+        orig = cls.__init__
+        def __init__(self, *args, **kw):
+            if not (args and args[0] is self):
+                _stamp(self)
+            orig(self, *args, **kw)
+        __init__.__wrapped__ = orig
+        __init__.__doc__ = orig.__doc__
+        cls.__init__ = __init__
+
+    def wrap_copy(cls):
+        orig = cls.copy
+        def copy(self, *args, **kw):
+            inst = orig(self, *args, **kw)
+            _stamp(inst)
+            return inst
+        copy.__wrapped__ = orig
+        copy.__doc__ = orig.__doc__
+        cls.copy = copy
+
+    def __hash__(self):
+        try:
+            n = _serials[id(self)]
+        except KeyError:
+            _stamp(self)
+            n = _serials[id(self)]
+        return (n * _state['mult'] + _state['seed']) % _P
+
+    for cls in (Node, Branch):
+        wrap_init(cls)
+        wrap_copy(cls)
+        cls.__hash__ = __hash__
+
+def make_hashitem():
+    "Replacement for ``Lexical.hashitem`` that does not hash a class object."
+    salt = 0x5EED0000 + int(os.environ.get('PYTABLEAUX_VERIF_LEXSALT', '0') or 0)
+    def hashitem(item, /) -> int:
+        return hash((salt, item.sort_tuple))
+    return hashitem
